@@ -309,7 +309,9 @@ def is_np_scalar(x):
 
 
 def num_norm(v):
-    """Collapse constant Rats to Fractions/ints."""
+    """Collapse constant Rats to Fractions/ints (and read through 0-d arrays holding numbers)."""
+    if isinstance(v, Arr0) and isinstance(v.value, (int, Fraction, Rat)) and not isinstance(v.value, bool):
+        v = v.value
     if isinstance(v, Rat):
         c = v.const_value()
         if c is not None:
@@ -1003,6 +1005,9 @@ class Evaluator:
             if isinstance(cur, list) and isinstance(s.op, ast.Add):
                 cur.extend(self.iterate(rhs))  # list += is in place
                 v = cur
+            elif isinstance(cur, Arr0) and isinstance(cur.value, (int, Fraction, Rat)):
+                cur.value = num_norm(self.binop(s.op, cur.value, rhs))  # 0-d ndarray: in place
+                v = cur
             else:
                 v = self.binop(s.op, cur, rhs)
                 if isinstance(cur, Arr) and isinstance(v, Arr):
@@ -1488,6 +1493,10 @@ class Evaluator:
     _DUNDER = {ast.Add: "add", ast.Sub: "sub", ast.Mult: "mul", ast.Div: "truediv", ast.MatMult: "matmul", ast.Pow: "pow"}
 
     def binop(self, op, a, b):
+        if isinstance(a, Arr0):
+            a = num_norm(a)
+        if isinstance(b, Arr0):
+            b = num_norm(b)
         if getattr(a, "__yadsa_native__", False) or getattr(b, "__yadsa_native__", False):
             import operator as _op
 
@@ -1622,6 +1631,8 @@ class Evaluator:
         return True
 
     def compare(self, op, a, b, node):
+        if isinstance(op, (ast.Is, ast.IsNot)) and (isinstance(a, Arr0) or isinstance(b, Arr0)):
+            return (a is b) if isinstance(op, ast.Is) else (a is not b)
         a, b = num_norm(a), num_norm(b)
         if isinstance(op, ast.Is):
             return a is b or (a is None and b is None)
@@ -1958,6 +1969,8 @@ def _key(k):
 
 
 def _r(v):
+    if isinstance(v, Arr0):
+        v = num_norm(v)
     return A.to_rat(v)
 
 
@@ -2474,9 +2487,10 @@ def _np_array(ev, data, dtype=None, **kw):
     c = conv(data)
     if isinstance(c, list):
         return Arr(c)
-    if isinstance(c, (dict, str, bool)) or c is None or kw.get("_zero_dim"):
-        return Arr0(c)
-    return c
+    if isinstance(c, Arr0):
+        return Arr0(c.value)
+    # a 0-dimensional array: a mutable box around the scalar (augmented assignment acts in place, aliases see it)
+    return Arr0(c)
 
 
 def _np_elementwise(fn):
